@@ -488,10 +488,10 @@ fn replay_fresh(exe: &std::path::Path, path: &str) -> Option<bool> {
                 };
             }
             Ok(None) => {
-                if t0.elapsed() > Duration::from_secs(90) {
+                if t0.elapsed() > Duration::from_secs(40) {
                     let _ = ch.kill();
                     let _ = ch.wait();
-                    // no answer in 90 s: a hang reproduces as a hang
+                    // no answer in 40 s: a hang reproduces as a hang
                     return Some(true);
                 }
                 std::thread::sleep(Duration::from_millis(20));
@@ -549,44 +549,63 @@ pub fn supervisor_main(check: &dyn Check, tier: Tier, seed: u64) -> i32 {
         eprintln!("machinery failure in prepare: {}", e);
         return 2;
     }
-    let stall = Duration::from_secs(tier.pick(120, 600));
+    let stall = Duration::from_secs(tier.pick(60, 600));
     let (mut total, crashes, machinery_fail) = run_workers(check, &exe, tier, seed, stall);
     if machinery_fail {
         eprintln!("machinery failure: a worker could not start");
         return 2;
     }
     // crash isolation
-    let mut crash_violations: Vec<Violation> = Vec::new();
+    let mut crash_violations_n: Vec<(u64, Violation)> = Vec::new();
     let units_cache = if crashes.is_empty() { vec![] } else { check.units(tier, seed) };
-    for c in &crashes {
-        let (case, how, partial) = isolate(check, &exe, tier, seed, c.unit);
+    // at most 4 units are isolated (all concurrently): one witness per kind of death is what the
+    // report needs, the rest would only repeat it
+    let isolated: Vec<(usize, String, (Option<String>, String, Option<Summary>))> = std::thread::scope(|sc| {
+        let hs: Vec<_> = crashes.iter().take(4).map(|c| {
+            let exe = &exe;
+            let (unit, how) = (c.unit, c.how.clone());
+            sc.spawn(move || (unit, how, isolate(check, exe, tier, seed, unit)))
+        }).collect();
+        hs.into_iter().filter_map(|h| h.join().ok()).collect()
+    });
+    let mut seen_outcomes: BTreeMap<String, usize> = BTreeMap::new();
+    for (unit, chow, (case, how, partial)) in isolated {
         if let Some(p) = partial {
             // the unit completed in isolation: nondeterministic death => machinery
             total.merge(p);
-            eprintln!("machinery failure: unit {} died in a shard ({}) but completes in isolation", c.unit, c.how);
+            eprintln!("machinery failure: unit {} died in a shard ({}) but completes in isolation", unit, chow);
             return 2;
         }
         let case_v: Value = case.as_deref().and_then(|s| serde_json::from_str(s).ok()).unwrap_or(Value::Null);
         let mut sig = BTreeMap::new();
-        sig.insert("outcome".to_string(), if how.starts_with("hang") { "hang".to_string() } else { "process-death".to_string() });
-        crash_violations.push(Violation {
+        let outcome = if how.starts_with("hang") { "hang".to_string() } else { "process-death".to_string() };
+        sig.insert("outcome".to_string(), outcome.clone());
+        if let Some(ix) = seen_outcomes.get(&outcome) {
+            let v: &mut (u64, Violation) = &mut crash_violations_n[*ix];
+            v.0 += 1;
+            continue;
+        }
+        seen_outcomes.insert(outcome, crash_violations_n.len());
+        crash_violations_n.push((1, Violation {
             property: id.to_string(),
             rule: "total".to_string(),
             sig,
-            unit: units_cache.get(c.unit).cloned().unwrap_or(Value::Null),
+            unit: units_cache.get(unit).cloned().unwrap_or(Value::Null),
             case: case_v,
             expected: "the call returns normally".to_string(),
-            observed: format!("{} / {}", c.how, how),
+            observed: format!("{} / {} ({} worker(s) of this run ended this way; their remaining units were not explored)", chow, how, crashes.len()),
             size: 0,
-        });
+        }));
     }
+    let crash_violations: Vec<Violation> = crash_violations_n.iter().map(|(_, v)| v.clone()).collect();
     if !crash_violations.is_empty() && !check.crash_is_violation() {
         eprintln!("machinery failure: worker crashed: {}", crash_violations[0].observed);
         return 2;
     }
-    for v in crash_violations {
+    drop(crash_violations);
+    for (n, v) in crash_violations_n {
         let k = v.sig_key() + &hash_str(&v.unit.to_string());
-        total.violations.insert(k, (1, v));
+        total.violations.insert(k, (n, v));
     }
 
     // known findings
@@ -649,7 +668,7 @@ pub fn supervisor_main(check: &dyn Check, tier: Tier, seed: u64) -> i32 {
     }
 
     // vacuity guard
-    if total.evaluations == 0 || total.units == 0 {
+    if exit == 0 && (total.evaluations == 0 || total.units == 0) {
         eprintln!("machinery failure: nothing was explored");
         return 2;
     }
